@@ -1334,6 +1334,10 @@ def _get_divisions(
     return result
 
 
+def _has_nulls(ser):
+    return ser.isna().any()
+
+
 def _calculate_divisions(
     frame,
     other,
@@ -1348,10 +1352,11 @@ def _calculate_divisions(
         other = ToSeriesIndex(other)
 
     try:
-        divisions, mins, maxes = compute(
+        divisions, mins, maxes, nulls = compute(
             new_collection(RepartitionQuantiles(other, npartitions, upsample=upsample)),
             new_collection(other).map_partitions(M.min),
             new_collection(other).map_partitions(M.max),
+            new_collection(other).map_partitions(_has_nulls, meta=(None, bool)),
         )
     except TypeError as e:
         # When there are nulls and a column is non-numeric, a TypeError is sometimes raised as a result of
@@ -1400,7 +1405,9 @@ def _calculate_divisions(
         mins = mins.astype(dtype)
         maxes = maxes.astype(dtype)
 
-    if mins.isna().any() or maxes.isna().any():
+    if mins.isna().any() or maxes.isna().any() or nulls.any():
+        # min / max skip missing keys: they belong into the last (first)
+        # partition of the result wherever they are now
         presorted = False
     else:
         n = mins.size
